@@ -346,11 +346,25 @@ def build_image(im, image_id, resolved):
         for f in rec.fields:
             if f["key"] in LINE_CONSTANTS:
                 ov[f["key"]] = baseline_value(f, const_salt)
+        mode = im.get("line_mode") or "distinct"
+        salt = 100 * (image_id + 1) + (k if mode == "distinct" else 0)
+        if mode == "drift":
+            # consecutive lines differ by one unit of every wide numeric field (and 1 ms / 1 us)
+            for f in rec.fields:
+                if f["key"] in LINE_CONSTANTS or f["key"] in ov or "enum" in f or f.get("flag") or is_spare(f["name"]):
+                    continue
+                if f["kind"] == "B" and f["w"] >= 4:
+                    ov[f["key"]] = (3_000_000 + int.from_bytes(baseline_value(f, salt), "big") + k).to_bytes(f["w"], "big")
+                elif f["kind"] == "ydms":
+                    y, d, ms = struct.unpack(">III", baseline_value(f, salt))
+                    ov[f["key"]] = struct.pack(">III", y, d, ms + k)
+                elif f["kind"] == "us":
+                    ov[f["key"]] = struct.pack(">Q", struct.unpack(">Q", baseline_value(f, salt))[0] + k)
         for (field, line), value in im["line_values"].items():
             if line is None or line == k:
                 ov[field] = value
         r = resolved.setdefault(("img%d" % image_id, f"line[{k}]"), {})
-        pre = encode_record(rec, ov, salt=100 * (image_id + 1) + k, resolved=r)
+        pre = encode_record(rec, ov, salt=salt, resolved=r)
         assert len(pre) == info["prefix"]
         assert len(samples[k]) == P * info["bps"], (len(samples[k]), P, info["bps"])
         out.append(pre + samples[k])
